@@ -28,7 +28,7 @@ MANIFEST = {
             "modelled. The specification side (a query's value does not depend on which other queries are asked) is the "
             "Lean theorem listed in the obligation list.",
     "note": "Trusted: harness. An engine OBJECT is unusable after an exception escaped execute(); histories therefore use a "
-            "fresh engine per history (same database/target reuse is what the property states).",
+            "fresh engine per history (same database/target reuse is what the property states). First-order sub-phase (harness/groundfo_util.py): programs with variables against ProbLogModel/GroundFO.lean, exact correspondence under the recorded schedule / history; the semantic statement (CorrectFO) is checked per program by Drivers.GroundFOCheck under the recorded and an arbitrary schedule, proved only structurally (C01GroundFO.*_partial).",
     "design_ref": "DESIGN.md §6 C08",
 }
 
@@ -62,6 +62,9 @@ def run(ctx):
     # correspondence of ground program and table) and history independence is a theorem (C08_ground_history_independent)
     import ground_util
     gerr = ground_util.guarded(ctx, "history", 200, 6000)
+    import groundfo_util           # the same on programs WITH variables (first-order model, exact correspondence)
+    gerr2 = groundfo_util.guarded(ctx, "history", 150, 5000)
+    gerr = gerr or gerr2
     rc = cfgprop.run(ctx, MODULE, THEOREMS, variants, nq=50, nt=700, level="other",
                      explanation="Histories are explored, not proved, on general programs; every history's answers are compared "
                                  "with the Lean specification value. On ground programs without recursion the engine and its "
